@@ -199,7 +199,10 @@ def pipe_part(R, tier, seed):
 
 RACE_THEOREMS = ["ShipVerif.Race.raceCfg_stable", "ShipVerif.Race.raceCfg_recognised", "ShipVerif.Race.C04_call_in_window_refused",
                  "ShipVerif.Race.C04_abort_not_revived", "ShipVerif.Race.C04_abort_not_revived_repo", "ShipVerif.Race.C01_no_progress_after_abort",
-                 "ShipVerif.Race.C04_abort_in_window_is_revived"]
+                 "ShipVerif.Race.C04_abort_in_window_is_revived",
+                 "ShipVerif.Inter.entering_links", "ShipVerif.Inter.readyInit_sites_fixed", "ShipVerif.Inter.inv_run",
+                 "ShipVerif.Inter.C01_trust_gate_interleaved", "ShipVerif.Inter.C01_no_grant_no_progress",
+                 "ShipVerif.Inter.C04_outcome_not_final_interleaved"]
 
 
 def race_facts():
@@ -243,9 +246,9 @@ def race_corr(line, facts):
 def race_part(R, pid, tier, seed):
     """C01 / C04 with two goroutines: a user call (approve, abort, close, connection error) runs while a message handler
     is blocked inside a transport write; the order-independent parts of the property are evaluated on the observations"""
-    p = C.lake_build(["ShipVerif.Props.C04Race"])
+    p = C.lake_build(["ShipVerif.Props.C04Race", "ShipVerif.Props.C01Inter"])
     lean_ok = p.returncode == 0
-    aud = C.audit(pid + "race", RACE_THEOREMS, ["ShipVerif.Props.C04Race"]) if lean_ok else []
+    aud = C.audit(pid + "race", RACE_THEOREMS, ["ShipVerif.Props.C04Race", "ShipVerif.Props.C01Inter"]) if lean_ok else []
     facts = race_facts()
     mism, parks = [], {}
     d = C.workdir(pid + "race")
@@ -287,7 +290,7 @@ def race_part(R, pid, tier, seed):
                      "replay": "harness userrace -seed <seed> -n <n>, scenario <scenario>: one real ShipConnection; `observations` is the linearised record (EV:msg@<state>(blocked-in-write) = the handler is held in its write, EV:user:<call> = the call made meanwhile, EV:released = the write returns)",
                      "count": len(bad), "first": v}, "userrace")
     elif not lean_ok:
-        R.violation({"property": pid, "broken": "lake build ShipVerif.Props.C04Race: the obligation `stable` on the regenerated facts of ship/hs_*.go and ship/connection.go (no user call acts in a state that is in force during a handler's write followed by the assignment of a progress state) no longer checks",
+        R.violation({"property": pid, "broken": "lake build ShipVerif.Props.C04Race / C01Inter: an obligation on the regenerated facts no longer checks - `stable` of ship/hs_*.go and ship/connection.go (no user call acts in a state that is in force during a handler's write followed by the assignment of a progress state) or `readyInit_sites_fixed` (the ready branch of hello is entered only under the trust condition of the dispatch and by ApprovePendingHandshake)",
                      "facts": {"windows": sorted(facts["windows"]), "abortStates": facts["abort"], "approveStates": facts["approve"]},
                      "detail": (p.stdout or "")[-2500:]}, "raceproof", no_input=True)
     elif mism:
